@@ -25,3 +25,4 @@ import SpoxModel.Props.C19
 #print axioms C19.out_count
 #print axioms C19.bad_callbacks_typeerror
 #print axioms C19.bad_callback_invocations
+#print axioms C19.nested_results_typeerror
